@@ -35,7 +35,14 @@ Proof. intros cm H r l. rewrite H. apply full_spec. Qed.
 Theorem C04_regex_prepare_plain : forall e, forallb plain_char e = true -> regex_prepare e = e.
 Proof. exact prepare_plain. Qed.
 
-(* listed known finding (regex-class-heuristic): the third pass takes a `]` that stands for itself after a complete class into
+(* since 5e93dbf the passes are applied only to expressions the regex crate does not take as they stand: a regular expression
+   without unknown escapes is handed to the crate as written, whatever brackets it holds *)
+Theorem C04_regex_used_as_written : forall compiles e, cleanup e = e -> compiles e = true -> regex_effective compiles e = e.
+Proof. exact effective_as_written. Qed.
+Print Assumptions C04_regex_used_as_written.
+
+(* the former known finding (regex-class-heuristic), now confined to expressions that are not regular expressions as they stand:
+   the third pass takes a `]` that stands for itself after a complete class into
    that class.  As written, [a]b] is the class [a], then b, then ]: its language holds ab].  What the crate is given is one class
    of three characters, whose language does not hold ab] *)
 Example C04_regex_class_heuristic_refuted :
